@@ -1,4 +1,4 @@
-\* exhaustive (quick), repaired flags: as MC with states created/dropped/tombstone (collections) and created/dropped (partitions); source time 10 min ahead of the local clock
+\* the same control restricted to source times at or behind the local clock: no violation (this is why the skew has to be an input)
 SPECIFICATION Spec
 CHECK_DEADLOCK FALSE
 INVARIANTS TypeOK ContractMilvus ContractKafka
@@ -6,15 +6,15 @@ CONSTANTS
   DBs <- TwoDBs
   CNames <- OneC
   PNames <- OneP
-  MaxInc = 2
+  MaxInc = 1
   MaxPInc = 1
   DbStates = {"live", "goneDown", "goneBoth"}
-  CStates = {"created", "dropped", "tombstone"}
+  CStates = {"created", "dropping", "dropped", "tombstone"}
   PStates = {"created", "dropped"}
   Concrete <- NamesPlain
   Now = 100
-  Skews = {"ahead"}
-  ClampLocal = FALSE
+  Skews = {"behind", "equal"}
+  ClampLocal = TRUE
   FixStaleDb = TRUE
   LiveDbGuard = TRUE
   SafeKeys = TRUE
